@@ -14,7 +14,7 @@ import ALV.Spec.C15
   Rejected operations (an operand cannot be hashed):
     mk: ["setu",keys]  ["setbk",before,after,v]  ["bad"]      sd: ["setref",deleted]  ["rej"]
   Calls with a key argument of any shape (classified by `Call.toOp` / `SCall.toOp`):
-    ["call", kind, arg, value?]   kind: "set" | "get" | "del" | "k2k" | "v2k" | "in" | "dget"
+    ["kc", kind, arg, value?]   kind: "set" | "get" | "del" | "k2k" | "v2k" | "in" | "dget"
     arg: {"s": item} (a single object) | {"t": [item, …]} (a tuple);  item: "name" | null (unhashable)
     | a number (sd: a hashable non-string);  value: an integer | null (unhashable)
   "init": [[keys, v], …]  (mk) the arguments of the constructor, collapsed by `dictOf`
@@ -77,7 +77,7 @@ def parseCall (kind : String) (rest : List Json) : Except String (Call K V) := d
 def parseOp (j : Json) : Except String (Op K V) := do
   let a ← getArr j
   match a with
-  | Json.str "call" :: Json.str kind :: rest => pure (← parseCall kind rest).toOp
+  | Json.str "kc" :: Json.str kind :: rest => pure (← parseCall kind rest).toOp
   | [Json.str "set", ks, v] => pure (.set (← getKeys ks) (← getInt v))
   | [Json.str "del", k] => pure (.del (← getStr k))
   | [Json.str "get", k] => pure (.get (← getStr k))
@@ -121,7 +121,7 @@ def parseSCall (kind : String) (rest : List Json) : Except String (SCall K V) :=
 def parseSOp (j : Json) : Except String (SOp K V) := do
   let a ← getArr j
   match a with
-  | Json.str "call" :: Json.str kind :: rest => pure (← parseSCall kind rest).toOp
+  | Json.str "kc" :: Json.str kind :: rest => pure (← parseSCall kind rest).toOp
   | [Json.str "set", ks, v] => pure (.set (← getKeys ks) (← getInt v))
   | [Json.str "del", k] => pure (.del (← getStr k))
   | [Json.str "get", k] => pure (.get (← getStr k))
@@ -172,21 +172,28 @@ def viewLevel (every i : Nat) (last rejected : Bool) : Nat :=
   else if every == 0 then 0 else 1
 
 def Op.isRejected : Op K V → Bool
-  | .setUnhashable _ | .setBadKey _ _ _ | .badOperand | .const _ => true
+  | .setUnhashable _ | .setBadKey _ _ _ | .badOperand => true
   | _ => false
 
 def SOp.isRejected : SOp K V → Bool
-  | .setRefused _ | .rejected | .const _ => true
+  | .setRefused _ | .rejected => true
+  | _ => false
+
+/-- is the JSON operation a call with a key argument of any shape (`["kc", …]`)?  Such a step is always
+    followed by the full view -/
+def isKeyCall (j : Json) : Bool :=
+  match j with
+  | Json.arr (Json.str "kc" :: _) => true
   | _ => false
 
 def traceMK (every : Nat) (keys : List K) (vals : List V) (tuples : List (List K)) (i : Nat) :
-    St K V → Log K V → List (Op K V) → List Json × List Json
+    St K V → Log K V → List (Op K V × Bool) → List Json × List Json
   | _, _, [] => ([], [])
-  | s, l, op :: ops =>
+  | s, l, (op, full) :: ops =>
     let m := step s op
     let p := specStep l op
     let t := traceMK every keys vals tuples (i + 1) m.1 p.1 ops
-    let v := viewLevel every i ops.isEmpty (Op.isRejected op)
+    let v := viewLevel every i ops.isEmpty (full || Op.isRejected op)
     (Json.mkObj (("res", jRes m.2) :: (if v == 2 then viewModel m.1 keys vals tuples
         else if v == 1 then [("items", jPairs jKeys Json.int m.1.store)] else [])) :: t.1,
      Json.mkObj (("res", jRes p.2) :: (if v == 2 then viewSpec p.1 keys vals tuples
@@ -208,13 +215,13 @@ def viewSDSpec (g : SDSpec K V) (keys : List K) (vals : List V) (tuples : List (
     :: viewSpec g.log keys vals tuples
 
 def traceSD (every : Nat) (keys : List K) (vals : List V) (tuples : List (List K)) (i : Nat) :
-    SD K V → SDSpec K V → List (SOp K V) → List Json × List Json
+    SD K V → SDSpec K V → List (SOp K V × Bool) → List Json × List Json
   | _, _, [] => ([], [])
-  | s, g, op :: ops =>
+  | s, g, (op, full) :: ops =>
     let m := sdStep s op
     let p := sdSpecStep g op
     let t := traceSD every keys vals tuples (i + 1) m.1 p.1 ops
-    let v := viewLevel every i ops.isEmpty (SOp.isRejected op)
+    let v := viewLevel every i ops.isEmpty (full || SOp.isRejected op)
     (Json.mkObj (("res", jRes m.2) :: (if v == 2 then viewSDModel m.1 keys vals tuples
         else if v == 1 then [("items", jPairs jKeys Json.int m.1.mkd.store),
                              ("attrs", jPairs jAttrName Json.int m.1.attrs),
@@ -237,6 +244,7 @@ def handle (entry : String) (j : Json) : Except String Json := do
     | some o => getNat (← field o "every")
   match entry with
   | "mk" =>
+    let jops ← getArr (← field j "ops")
     let ops ← getList parseOp (← field j "ops")
     let init ← match j.getObjVal? "init" with
       | some a => getList (fun p => do
@@ -246,12 +254,13 @@ def handle (entry : String) (j : Json) : Except String Json := do
       | none => pure []
     let s0 : St K V := ofPairs init
     let l0 : Log K V := (specRun [] (ctorOps init)).1
-    let t := traceMK every keys vals tuples 0 s0 l0 ops
+    let t := traceMK every keys vals tuples 0 s0 l0 (ops.zip (jops.map isKeyCall))
     let last := keys.map fun k => jOptVal (lastAssigned k (ctorOps init ++ ops) none)
     pure <| Json.mkObj [("model", Json.arr t.1), ("spec", Json.arr t.2), ("last", Json.arr last)]
   | "sd" =>
+    let jops ← getArr (← field j "ops")
     let ops ← getList parseSOp (← field j "ops")
-    let t := traceSD every keys vals tuples 0 (SD.empty) ({} : SDSpec K V) ops
+    let t := traceSD every keys vals tuples 0 (SD.empty) ({} : SDSpec K V) (ops.zip (jops.map isKeyCall))
     pure <| Json.mkObj [("model", Json.arr t.1), ("spec", Json.arr t.2)]
   | _ => throw s!"C15: unknown entry {entry}"
 
